@@ -126,7 +126,11 @@ func (sr *syncRemote) handle(msg p2p.Msg) {
 	case 8: // GetBlockHashesFromNumber
 		var req getHashesFromNumber
 		msg.Decode(&req)
-		_, a := sr.stage("hashes")
+		kind := "hashes"
+		if req.Amount == 1 {
+			kind = "search" // the binary search of the ancestor lookup asks for one hash at a time
+		}
+		_, a := sr.stage(kind)
 		good := sr.hashesFromNumber(req.Number, req.Amount)
 		if a != "correct" && sr.onMis != nil {
 			sr.onMis(a)
@@ -311,7 +315,7 @@ func syncSessChild(a syncSessArg) (*syncSessResult, error) {
 	for _, b := range a.Behaviours {
 		list = append(list, b)
 		last := b.Steps[len(b.Steps)-1]
-		if last.Stage == "blocks-1" && last.Answer != "correct" && last.Answer != "silent" {
+		if last.Stage == "blocks-1" && (last.Answer == "height-above-window" || last.Answer == "unrequested" || last.Answer == "height-below-window") {
 			list = append(list, b, b)
 		}
 	}
@@ -414,7 +418,7 @@ func syncSessCheck(run *core.Run) {
 		core.Fatal("SyncSession generation: %v (%d behaviours)", err, len(behaviours))
 	}
 	all := len(behaviours)
-	parts := 8
+	parts := 12
 	dir, err := os.MkdirTemp(core.Scratch(), "syncsess-")
 	if err != nil {
 		core.Fatal("%v", err)
